@@ -49,15 +49,32 @@ def build(repo="/repo"):
     return os.path.join(env["CARGO_TARGET_DIR"], "release", "slicec-bounded"), ""
 
 
+def build_slicec_bin(repo="/repo"):
+    """the real `slicec` binary of the tree under test (stand-in `generators` runs it): built into the same target directory"""
+    tag = "" if repo == "/repo" else "_" + hashlib.sha1(repo.encode()).hexdigest()[:8]
+    env = dict(os.environ, CARGO_NET_OFFLINE="true", CARGO_TARGET_DIR=os.path.join(VERIF, "build", "bounded_target" + tag))
+    p = subprocess.run(["cargo", "build", "--offline", "--release", "-q", "--manifest-path", os.path.join(repo, "Cargo.toml"), "-p", "slicec", "--bin", "slicec"],
+                       env=env, capture_output=True, text=True)
+    if p.returncode != 0:
+        return None, p.stderr[-2500:]
+    return os.path.join(env["CARGO_TARGET_DIR"], "release", "slicec"), ""
+
+
 def run(check, repo="/repo", timeout=600, deep=False):
     t0 = time.time()
     exe, err = build(repo)
     if exe is None:
         return dict(check=check, status="undecided", why="bounded stand-in does not build against this tree: " + err[-600:], wall_s=round(time.time() - t0, 1))
+    extra = {}
+    if check == "generators":
+        sb, err = build_slicec_bin(repo)
+        if sb is None:
+            return dict(check=check, status="undecided", why="the slicec binary does not build from this tree: " + err[-600:], wall_s=round(time.time() - t0, 1))
+        extra["VERIF_SLICEC_BIN"] = sb
     scratch = os.path.join(VERIF, "build", "scratch")
     os.makedirs(scratch, exist_ok=True)
     p = subprocess.run(["timeout", str(timeout), exe, check], capture_output=True, text=True,
-                       env=dict(os.environ, VERIF_SCRATCH=scratch, **({"VERIF_BOUNDED_DEEP": "1"} if deep else {})))
+                       env=dict(os.environ, VERIF_SCRATCH=scratch, **extra, **({"VERIF_BOUNDED_DEEP": "1"} if deep else {})))
     cex, summary = [], None
     for ln in p.stdout.split("\n"):
         ln = ln.strip()
